@@ -308,7 +308,78 @@ def drops(F, R):
         R.exact('receiver.release sites in release_offset', len(rel), 1)
 
 
+SHIFTING = r'\b(skip|filter|rev|skip_while|step_by|filter_map|flatten|flat_map)\('
+
+
+def position_is_a_slot_index(F, R):
+    """`Iterator::position()` counts the items the iterator YIELDS.  When the chain in front of it filters or skips (`filter`, `filter_map`,
+    `skip`, `rev` ..) the count is a rank among the remaining items, not an index into the underlying slots.  Connection ids, segment ids
+    and container keys in iceoryx2 are slot indices (empty slots are kept): a rank differs from the slot index as soon as an earlier
+    slot is empty."""
+    n = 0
+    for f_ in F.fn_list:
+        if not f_.crate.startswith('iceoryx2') or f_.crate == 'iceoryx2_ffi_c':
+            continue
+        for e_ in f_.calls(r'Iterator::position$|Iterator::rposition$'):
+            n += 1
+            t_ = sym_nstr(sym(f_, e_.args[0]))
+            mm = re.search(SHIFTING, t_)
+            R.ob('PATTERN', 'PATTERN::%s::position-counts-slots' % fnkey(f_), not mm, 'position(%s)%s' % (t_[:110], '' if not mm else ' ; `%s` in front of position() turns the result into a rank among the yielded items' % mm.group(1)), e_.where, f_)
+    R.floors['position() calls examined'] = {'expected': 0, 'seen': n}
+
+
+def received_chunks_owned(F, R):
+    """A chunk taken out of a connection (`receive_impl() -> Some((details, chunk))`) is either wrapped into the object that gives it back on
+    drop (Response / Sample / ActiveRequest: the types whose Drop reaches release_offset) or released at once - on every path to the next
+    receive or to a return.  `Chunk` and `ChunkDetails` have no Drop: a chunk that is merely skipped (`continue`) stays borrowed for ever,
+    the sender never sees it again (its segment slot and the borrow budget of the channel are gone)."""
+    owners = set()
+    for d in F.find_fns(r'^<iceoryx2::.* as core::ops::drop::Drop>::drop$'):
+        if any(b.calls(r'::release_offset$') for b in lib.family(F, d)):
+            owners.add((d.impl or {}).get('self_adt'))
+    R.floor('types that give a received chunk back on drop', len(owners), 3)
+    n = 0
+    for f_ in F.fn_list:
+        if f_.crate != 'iceoryx2' or f_.kind == 'closure':
+            continue
+        rcv = f_.calls(r'::receive_impl$')
+        if not rcv:
+            continue
+        own = f_.calls(r'::release_offset$')
+        for a_ in owners:
+            if a_:
+                own += agg_sites(f_, '^' + re.escape(a_) + '$')
+        for c_ in f_.sites:
+            if c_.is_call and c_.callee and c_ not in rcv:
+                g_ = F.fn_opt(c_.callee)
+                if g_ is not None and any(a_ and re.search(re.escape(a_) + r'(<|$)', str(g_.locals[0])) and not str(g_.locals[0]).startswith('core::result') for a_ in owners):
+                    own.append(c_)
+        arms = []
+        for b in range(len(f_.blocks)):
+            si = f_.switch_info(b)
+            if si and 'discr_of' in si:
+                p_ = f_.prov_place(si['discr_of'])
+                if (p_.root[0] == 'call' and p_.root[1].key() == rcv[0].key() and 'as:Continue' in p_.path) or \
+                   (p_.root[0] == 'call' and (p_.root[1].callee or '').endswith('::branch') and any(k_ == 'as:Continue' for k_ in p_.path)):
+                    arms += [(b, tgt) for lab, tgt in lib.arm_blocks(f_, b, lambda l: l == 'Some', F)]
+        if not arms:
+            continue     # the result is forwarded whole (Option::map into an owner): nothing is taken apart here
+        n += 1
+        bad = None
+        for b, tgt in arms:
+            pth = f_.exists_path(core.Site(f_, tgt, -1, ['arm']), rcv + f_.ret_sites(), own)
+            if pth is not None:
+                bad = pth
+        flav = 'slice' if re.search(r'[<, ]\[', f_.id.split('>::')[0]) else 'sized'
+        if 'CustomPayloadMarker' in f_.id:
+            flav = 'custom'
+        R.ob('PAIR', 'PAIR::%s::%s::received-chunk-owned-or-released' % (fnkey(f_), flav), bad is None, 'from the Some(chunk) arm of receive_impl() every path to the next receive_impl() / a return passes the construction of an owner (%s) or release_offset()%s' % (', '.join(sorted(x.rsplit('::', 1)[-1] for x in owners if x)), '' if bad is None else ' -- path without owner: blocks %s' % bad), rcv[0].where, f_)
+    R.floor('receive functions that take the received chunk apart', n, 5)
+
+
 def check(F, R, tier):
+    position_is_a_slot_index(F, R)
+    received_chunks_owned(F, R)
     from . import C08
     C08.segment_size(F, R)   # the static data segment reserves the worst-case alignment slack (every configured chunk fits)
     # F20b: an index obtained from `.enumerate()` and used to address the enumerated collection (remove / index) is an index INTO that collection:
